@@ -27,6 +27,7 @@ func init() {
 	ruleText["R06.2"] = "every assignment to frame.deferred is append([][]reflect.Value{rec}, <same frame>.deferred...); the unwinding function ranges forward over frame.deferred once and calls rec[0].Call(rec[1:]); nothing else reads the records"
 	ruleText["R06.3"] = "in every closure recording a deferred call, elements 1.. of the record are fresh copies (reflect.New(T).Elem()+Set, or a copier function), never the aliasing result of a value generator"
 	ruleText["R06.4"] = "in the unwinding function: recovered = recover() dominates the loop over deferred records, which dominates the conditional panic(recovered); the recover builtin reads and clears frame.anc.recovered"
+	ruleText["R06.6"] = "same analysis as C01/R01.4: copyNode copies or re-initialises every node field the AST builder sets, so that defer/recover/panic statements inside instantiated generic functions are compiled like the same statements elsewhere"
 	ruleText["R06.5"] = "a converting recover assigns Panic{Value: <recovered>, ...} to the error result of its function"
 }
 
@@ -40,6 +41,15 @@ func runC06(c *Config, r *Report) {
 	c06R2(ic, r)
 	c06R3(ic, r)
 	c06R4(ic, r)
+	// R06.6: defers, recover and panics inside instantiated generic code rest on the AST copy
+	// being identical to a freshly built tree (same analysis as C01/R01.4).
+	sub := newReport("C01")
+	c01R4(ic, sub)
+	for _, o := range sub.Obls {
+		o.Rule = "R06.6"
+		r.add(o)
+	}
+	r.Errors = append(r.Errors, sub.Errors...)
 }
 
 func c06R1(ic *IC, r *Report) {
